@@ -475,6 +475,10 @@ func genExtension(t *rapid.T, label string, kinds []string, maxRaw int) core.Ext
 		e = core.Extension{Kind: kind, Raw: genRaw(t, label+"-raw", maxRaw)}
 		if kind == core.KCUSTOM {
 			e.OID = genOID(t, label+"-coid")
+			if rapid.IntRange(0, 3).Draw(t, label+"-builtin-oid") == 0 {
+				// a custom extension may carry the OID of a built-in kind
+				e.OID = core.KindOID[rapid.SampledFrom(core.AllKinds[:10]).Draw(t, label+"-builtin")]
+			}
 		}
 	} else {
 		e = genContentExt(t, kind, label)
